@@ -136,6 +136,25 @@ def eval_params(case):
     from . import c13
     from vlsirtools import SpiceType
     g = c13.H()
+    feats_extra = []
+    if case.get("earlier") and case.get("ext"):
+        # history: another package was imported in this process before - one declaring external cells of the same names, domains
+        # and port names, but of other widths, directions and spice types
+        m0 = h.Module(name="PEarlier")
+        for j, es in enumerate(case["earlier"][:len(case["ext"])]):
+            now = case["ext"][j]
+            shape = [es["ports"][i % len(es["ports"])] for i in range(len(now["ports"]))]
+            ports = [{"in": h.Input, "out": h.Output, "inout": h.Inout, "port": h.Port}[d](name="p%d" % pi, width=w) for pi, (w, d) in enumerate(shape)]
+            X = h.ExternalModule(name="E%d" % j, port_list=ports, domain=now.get("domain", "verif"), spicetype=getattr(SpiceType, es["spicetype"]), paramtype=dict)
+            inst = X()()
+            for p_ in ports:
+                inst.connect(p_.name, m0.add(h.Signal(name="e%d_%s" % (j, p_.name), width=p_.width)))
+            m0.add(inst, name="x%d" % j)
+        try:
+            h.from_proto(h.to_proto(m0))
+            feats_extra.append("same_named_ext_imported_earlier")
+        except Exception:
+            pass
     m = h.Module(name="PTop")
     k = 0
     for ic in case.get("insts", []):
@@ -170,7 +189,7 @@ def eval_params(case):
         return {"status": "reject", "sig": design.exc_bucket(e)}
     b = pkg.SerializeToString(deterministic=True)
     fails, pkg = check_pkg_bytes(b)
-    return {"status": "ok", "fails": fails, "feats": sorted(pkgcheck.pkg_features(pkg)) + ["param_sweep"], "hash": env.canon_hash(b.hex())}
+    return {"status": "ok", "fails": fails, "feats": sorted(pkgcheck.pkg_features(pkg)) + ["param_sweep"] + feats_extra, "hash": env.canon_hash(b.hex() + str(feats_extra))}
 
 
 def record(res, case, v, source):
@@ -248,6 +267,7 @@ def shard(idx, n, tier):
                            st.tuples(twins, inst_cases).map(lambda t: t[0] + [t[1]]))
     pcase = st.fixed_dictionaries({"insts": inst_lists,
                                    "ext": st.lists(ext_shape, min_size=0, max_size=2),
+                                   "earlier": st.one_of(st.just([]), st.lists(ext_shape, min_size=1, max_size=2)),
                                    "literals": st.lists(st.sampled_from([".include 'x.sp'", "* comment", "", "a b c", ".param k=1"]), max_size=3)})
 
     @hypothesis.seed(env.subseed(PID, "p", idx))
